@@ -429,6 +429,54 @@ theorem C15_skip_existing_is_noop (sem : Sem) (c : Codec Input Item Node Bytes D
     step sem c st (.write i kind (some p) .skip a date) = (st, .skipped) := by
   simp [step, writeStep, hw, resolveName, hp, hq, keepExisting, askRaises]
 
+/-! ### Method by method (what the translator tie CRProps/T15.lean compares the current source with) -/
+
+/-- `_handle_file_path` decides before anything is touched: if it raises (`input()` without a terminal) or answers `""`
+    (SKIP / "n" on an existing file, or the empty name), a write call that goes through it changes NOTHING — no file, no
+    document, no global. -/
+theorem C15_handle_file_path_decides_first (sem : Sem) (c : Codec Input Item Node Bytes Date Content)
+    (st : St Input Node Bytes Date) (i : Nat) (w : Writer Input Node Date) (kind : Kind) (file : Option String) (mode : Mode)
+    (a : Answer) (date : Date) (hw : st.ws[i]? = some w) (hvia : (w.fmt == .xml && kind == .scenarioOnly) = false) :
+    (∀ e, handleFilePath c st w file mode a = .error e → writeStep sem c st i kind file mode a date = (st, .failed e)) ∧
+    (handleFilePath c st w file mode a = .ok "" → writeStep sem c st i kind file mode a date = (st, .skipped)) := by
+  have hr : resolveName c w kind file = resolveName c w .full file := by
+    cases file <;> cases hf : w.fmt <;> cases kind <;> simp_all [resolveName]
+  unfold handleFilePath writeStep
+  simp only [hw, hr, hvia]
+  generalize resolveName c w .full file = name
+  by_cases hn : name = "" <;> by_cases hx : (st.fs name).isSome = true <;> cases hk : keepExisting mode a <;>
+    cases hq : askRaises mode a <;> simp [hn, hx, hk, hq]
+  all_goals (intro h; exact absurd h.symm hn)
+
+/-- With SKIP, `_handle_file_path` answers `""` for every existing file. -/
+theorem C15_handle_file_path_skip (c : Codec Input Item Node Bytes Date Content) (st : St Input Node Bytes Date)
+    (w : Writer Input Node Date) (file : Option String) (a : Answer) (b : Bytes)
+    (hq : st.fs (resolveName c w .full file) = some b) : handleFilePath c st w file .skip a = .ok "" := by
+  unfold handleFilePath
+  by_cases hn : resolveName c w .full file = "" <;> simp [hn, hq, askRaises, keepExisting]
+
+/-- The six methods that fill a document (header, scenario objects, planning problems; XML and protobuf) change the
+    writer's OWN document and nothing else: every `set` / `append` / `CopyFrom` / assignment in them has the root element
+    or a field of the message of `self` as its target, and none of their statements is of an unknown kind.
+    (Finite tables, compared completely; tied to the current source by T15 `tie_*_accesses`.) -/
+theorem C15_document_methods_touch_own_document_only :
+    ∀ t ∈ Tables.documentMethods, ∀ a ∈ t, Tables.writesOwnDocument a = true := by decide
+
+/-- The constructor stores its `decimal_precision` argument as the writer's own precision and assigns the SAME argument
+    to the module global (`Op.new`: `gprec := prec`, `Writer.prec := prec`); the subclasses and the facade pass all
+    arguments on in order and start with an empty document. -/
+theorem C15_ctor_precision_accesses :
+    ("assign", "self._decimal_precision", "decimal_precision") ∈ Tables.ctorAccesses ∧
+    ("assign", "precision.decimals", "decimal_precision") ∈ Tables.ctorAccesses ∧
+    Tables.xmlCtorAccesses.head? = Tables.pbCtorAccesses.head? ∧
+    ("assign", "self._root_node", "etree.Element('commonRoad')") ∈ Tables.xmlCtorAccesses ∧
+    ("assign", "self._commonroad_msg", "commonroad_pb2.CommonRoad()") ∈ Tables.pbCtorAccesses := by decide
+
+/-- The only header attribute that does not come from the writer's own inputs is the date, and it is set on every write. -/
+theorem C15_header_date_is_the_only_clock_access :
+    (Tables.xmlHeaderAccesses.filter (fun a => a.1 = "set-from-clock")) = [("set-from-clock", "self._root_node", "date")] := by
+  decide
+
 /-! ### Non-vacuity, the laws are satisfiable, and the two former defects as theorems about `legacy` -/
 
 section Witness
